@@ -137,3 +137,16 @@ VARIANTS += [
     V("silent-aggregate-np-mean", O, "        return float(results.mean())",
       "        return float(np.mean(results))", "silent", ""),
 ]
+
+SO = "moptipyapps/dynamic_control/surrogate_optimizer.py"
+VARIANTS += [
+    V("scratch-system-is-the-real-one", SO,
+      "            tempsys = copy(self.system_model.system)",
+      "            tempsys = self.system_model.system", "fire", "D11.9",
+      "seed C11-scratch-system-aliases-real-system"),
+    V("silent-scratch-system-deepcopy", SO,
+      "            tempsys = copy(self.system_model.system)",
+      "            real_system = self.system_model.system\n"
+      "            tempsys = copy(real_system)", "silent", "",
+      "copy through a local"),
+]
